@@ -109,6 +109,8 @@ def run(chk):
     from lib import bytemaskkind, ersae
     bytemaskkind.run(chk)
     ersae.run(chk)
+    from lib import evexfeatures
+    evexfeatures.run(chk)
     return chk.finish(
         level="other",
         explanation=("Table/database agreement clauses: the RW, flag, feature and rm tables regenerate byte-identically from db/ with the "
